@@ -139,15 +139,19 @@ fn auth_header(c: &mut Cur) -> Option<Option<String>> {
     };
     match sig {
         1 => {
-            token.truncate(token.len() - 4);
+            token.truncate(token.len().saturating_sub(4));
         }
         2 => {
-            // flip one character in the middle of the signature
-            let dot = token.rfind('.').unwrap();
-            let pos = dot + 1 + (token.len() - dot - 1) / 2;
-            let ch = token.as_bytes()[pos];
-            let repl = if ch == b'A' { 'B' } else { 'A' };
-            token.replace_range(pos..pos + 1, &repl.to_string());
+            // flip one character in the middle of the signature (an empty signature gets one character)
+            let dot = token.rfind('.').unwrap_or(0);
+            if dot + 1 >= token.len() {
+                token.push('A');
+            } else {
+                let pos = dot + 1 + (token.len() - dot - 1) / 2;
+                let ch = token.as_bytes()[pos];
+                let repl = if ch == b'A' { 'B' } else { 'A' };
+                token.replace_range(pos..pos + 1, &repl.to_string());
+            }
         }
         3 => {
             // payload replaced after signing (a later expiry), signature kept
@@ -155,14 +159,19 @@ fn auth_header(c: &mut Cur) -> Option<Option<String>> {
             let parts: Vec<&str> = token.split('.').collect();
             token = format!(
                 "{}.{}.{}",
-                parts[0],
+                parts.first().copied().unwrap_or(""),
                 b64(serde_json::to_string(&serde_json::Value::Object(m)).unwrap().as_bytes()),
-                parts[2]
+                parts.get(2).copied().unwrap_or("")
             );
         }
         4 => {
             let parts: Vec<&str> = token.split('.').collect();
-            token = format!("{}.{}.{}", b64(br#"{"typ":"JWT","alg":"RS256","x":1}"#), parts[1], parts[2]);
+            token = format!(
+                "{}.{}.{}",
+                b64(br#"{"typ":"JWT","alg":"RS256","x":1}"#),
+                parts.get(1).copied().unwrap_or(""),
+                parts.get(2).copied().unwrap_or("")
+            );
         }
         _ => {}
     }
